@@ -44,6 +44,11 @@ var backends = []backend{
 	}, "ALL"},
 }
 
+// reseeded z3: the stability probe of the thorough tier
+var z3Reseeded = backend{"z3-new-seed7", func(f string, t int) []string {
+	return []string{"z3-new", fmt.Sprintf("-T:%d", t), "smt.random_seed=7", "sat.random_seed=7", f}
+}, ""}
+
 var solverSem = make(chan struct{}, 16)
 var queryCounter int64
 
@@ -77,8 +82,16 @@ func parseStatus(out string) string {
 // answer wins.  If all==true every back end runs to completion and a
 // disagreement is reported as status "disagree".
 func Solve(d *Decls, asserts []*Term, getValues []*Term, timeoutS int, all bool, tag string) SolverResult {
-	if all || coverMode(tag) || timeoutS <= 4 {
+	if coverMode(tag) || timeoutS <= 4 {
 		return solveWith(backends, d, asserts, getValues, timeoutS, all, tag)
+	}
+	if all {
+		// thorough tier: every back end to completion (cross-check); goals none of them decides on the plain
+		// query (non-linear ones) go on to the staged strategy below
+		r := solveWith(backends, d, asserts, getValues, timeoutS, true, tag)
+		if r.Status == "unsat" || r.Status == "sat" || r.Status == "disagree" {
+			return r
+		}
 	}
 	// stage 1: two fast back ends with a short limit; stage 2: the full portfolio
 	r := solveWith(backends[:1], d, asserts, getValues, 2, false, tag)
